@@ -209,7 +209,7 @@ impl Prop for C08 {
         serde_json::to_string(&c.text()).unwrap()
     }
     fn rule(&self) -> String {
-        "source models as in C01/C02 (with objective, inexact constants, unbounded declarations) of which three quarters carry edge features: a user variable named like a compiler auxiliary ($abs_0, $or_0, $max_0_select_1, ...), constraint names that duplicate each other or look like the de-duplication suffix (dup, dup__2, dup__3), the constants Infinity / MinusInfinity injected in constraints and objective, declared-but-unused variables. Every successfully compiled model is checked against the invariant list (sorted duplicate-free variables = domain keys, source variables present, one coefficient per variable in every row and the objective, finite coefficients / right-hand sides / offset, unique non-empty row names, every user-written name still on a row, declared variables keep their kind inside their declaration); a MissingFiniteBounds error must name at least one variable, only variables of the source, each with an infinite derived side. Non-trivial = compiled model with an edge feature (duplicate or suffix-like name, unused declaration, infinite constant, aux-like user name). Distinct = distinct model text.".into()
+        "source models as in C01/C02 (with objective, inexact constants, unbounded declarations) of which three quarters carry edge features: a user variable named like a compiler auxiliary ($abs_0, $or_0, $max_0_select_1, ...), constraint names that duplicate each other or look like the de-duplication suffix (dup, dup__2, dup__3), the constants Infinity / MinusInfinity injected in constraints and objective, declared-but-unused variables. Every successfully compiled model is checked against the invariant list (sorted duplicate-free variables = domain keys, source variables present, one coefficient per variable in every row and the objective, finite coefficients / right-hand sides / offset, unique non-empty row names, every user-written name still on a row, declared variables keep their kind inside their declaration); a MissingFiniteBounds error must name at least one variable, only variables of the source, each with an infinite derived side; a NonFiniteNumber error for a source without infinite constants is a violation (the missing bound was turned into a constant). Non-trivial = compiled model with an edge feature (duplicate or suffix-like name, unused declaration, infinite constant, aux-like user name). Distinct = distinct model text.".into()
     }
     fn check(&self, case: &ModelCase) -> Outcome {
         let referenced = case.referenced_vars();
@@ -284,6 +284,16 @@ impl Prop for C08 {
                 labels.push("rejected:MissingFiniteBounds".into());
                 Outcome::Pass { nontrivial: false, labels }
             }
+            // "... compilation fails with the missing-bounds error ... instead of emitting a
+            // constant": an infinite number that the source does not write can only come from a bound
+            // that could not be derived, so it has to be reported as such
+            Err(e @ LinearizationError::NonFiniteNumber(_)) if !has_inf => Outcome::fail(
+                "non-finite-constant-made-from-a-missing-bound",
+                format!("{e}
+the source holds no infinite constant; expected MissingFiniteBounds
+source:
+{}", case.text()),
+            ),
             Err(e) => Outcome::Skip(format!("rejected:{}", err_kind(&e))),
         }
     }
